@@ -105,6 +105,22 @@ func StatePredicates(prefix string) {
 		verifrt.Region(prefix+"reach:tx2-applied", S.Txs[NX-1].State == txAPPLIED)
 		verifrt.Region(prefix+"reach:tx2-failed-aborted", S.Txs[NX-1].State == txFAILED && txTerminal(1))
 	}
+	if NX > 2 {
+		// waypoint classes for three-transaction histories: the first two transactions have got this far, the third
+		// does not exist yet (the checker continues from one reachable state of each class)
+		fresh2, fresh3 := !S.Txs[1].Exists, !S.Txs[NX-1].Exists
+		t1C, t1A, t1F := S.Txs[0].State == txCOMMITTED, S.Txs[0].State == txAPPLIED, S.Txs[0].State == txFAILED
+		t2F := S.Txs[1].State == txFAILED
+		t2C := S.Txs[1].State == txCOMMITTED || S.Txs[1].State == txAPPLIED
+		verifrt.Region(prefix+"reach:w-C", t1C && fresh2 && fresh3)
+		verifrt.Region(prefix+"reach:w-A", t1A && fresh2 && fresh3)
+		verifrt.Region(prefix+"reach:w-F", t1F && fresh2 && fresh3)
+		verifrt.Region(prefix+"reach:w-CF", t1C && t2F && fresh3)
+		verifrt.Region(prefix+"reach:w-CC", t1C && t2C && fresh3)
+		verifrt.Region(prefix+"reach:w-AF", t1A && t2F && fresh3)
+		verifrt.Region(prefix+"reach:w-AC", t1A && t2C && fresh3)
+		verifrt.Region(prefix+"reach:w-FC", t1F && t2C && fresh3)
+	}
 	verifrt.Region(prefix+"reach:resynced-in-second-term", WithSync && S.Configs[0].Exists && S.Configs[0].Term >= 2 && S.Configs[0].AppliedTerm == S.Configs[0].Term && S.Configs[0].Applied > 0)
 	verifrt.Region(prefix+"reach:crashed", S.Crashes > 0)
 	verifrt.Region(prefix+"reach:fault", S.Faults > 0)
